@@ -22,8 +22,9 @@ NIV = 8
 TFSEC = 60
 # grid layouts: stored rows (grid position) and Epoch bounds on / between / outside them
 LAYOUT = {
-    "fixed": dict(rows=[4, 8, 12, 20, 24], lits=[2, 4, 6, 8, 12, 16, 18, 24, 26], btw=[4, 12, 18]),
-    "variable": dict(rows=[5, 7, 9, 17, 19, 23], lits=[2, 4, 5, 6, 7, 8, 9, 14, 17, 19, 23, 26], btw=[4, 7, 14, 19]),
+    "fixed": dict(rows=[4, 8, 12, 20, 24], lits=[2, 4, 6, 8, 12, 16, 18, 24, 26], btw=[4, 12, 18], btwq=[2, 4, 8, 18, 24, 26]),
+    "variable": dict(rows=[5, 7, 9, 17, 19, 23], lits=[2, 4, 5, 6, 7, 8, 9, 14, 17, 19, 23, 26], btw=[4, 7, 14, 19],
+                     btwq=[2, 5, 7, 14, 19, 23, 26]),
 }
 REAL_NAME = {"Epoch": "Epoch", "A": "Bid", "B": "Qty", "C": "Cnt", "F1": "x1", "F2": "x2", "F3": "x3", "F4": "x4"}
 TGT_TF = {1: ("1Min", 60), 2: ("5Min", 300), 3: ("1H", 3600), 4: ("5Min", 300)}
@@ -46,7 +47,7 @@ class Bucket:
             self.lv = {c: [rng.randint(1, 3) for _ in range(n)] for c in "ABC"}
             if set(self.lv["A"]) == {1, 2, 3} and len(set(self.lv["B"])) >= 2:
                 break
-        self.lits, self.btw = lay["lits"], lay["btw"]
+        self.lits, self.btw, self.btwq = lay["lits"], lay["btw"], lay["btwq"]
         # concrete time axis: interval 0 starts at minute m0 of some hour well inside a year
         y, mo, d = rng.choice([(2021, 3, 4), (2019, 7, 15), (2024, 2, 29), (2022, 10, 31), (2023, 6, 1)])
         h = rng.randrange(1, 22)
@@ -70,10 +71,11 @@ class Bucket:
         self.stored = None   # rows as a plain query returns them: list of dict(Epoch, Nanoseconds?, A, B, C)
 
     # ---- model constants ----
-    def consts(self):
+    def consts(self, quick=True):
         codes = [1000 * p + 100 * self.lv["A"][k] + 10 * self.lv["B"][k] + self.lv["C"][k] for k, p in enumerate(self.pos)]
         s = lambda xs: "{" + ", ".join(str(x) for x in xs) + "}"
         return dict(Kind='"%s"' % self.kind, G=G, RowCodes=s(codes), SecOffs="{0, 2}", EpochLits=s(self.lits), BtwLits=s(self.btw),
+                    BtwStrLits=s(self.btwq if quick else self.lits),
                     ALits=s(range(1, 8)), BLits="{2, 3, 6}", CLits="{3, 4}", Unfiltered='{"C"}',
                     Phase5=self.m0 % 5, Phase60=self.m0 % 60)
 
@@ -257,7 +259,7 @@ def chunked_run(binary, root, setup_ops, stmts, tag):
 
 
 def tlc_consts(b, depth, mod, salt, mod20, classes, rich=False):
-    c = b.consts()
+    c = b.consts(quick=not rich)
     c.update(Depth=depth, Deviations="{" + ", ".join('"%s"' % d for d in ALL_DEVS) + "}", SampleMod=mod, SampleSalt=salt, TripleMod=300,
              TgtClasses="{" + ", ".join(str(x) for x in classes) + "}", SampleMod20=mod20, Rich="TRUE" if rich else "FALSE")
     return c
@@ -283,7 +285,7 @@ def run(prop, tier):
         if prop == "C19":
             cfg = "Sql_%s_where.cfg" % b.kind
             r = vlib.run_tlc("Sql", cfg, timeout=1500, heap="6g",
-                             cfg_text=vlib.cfg_text(tlc_consts(b, 2 if quick else 3, 80 if quick else 8, salt, 1, [1]), spec="SpecW",
+                             cfg_text=vlib.cfg_text(tlc_consts(b, 2 if quick else 3, 60 if quick else 8, salt, 1, [1], rich=not quick), spec="SpecW",
                                                     invariants=["CheckW", "EmitW"]))
             vlib.tlc_ok(r, cfg)
             if r["violated"]:
